@@ -194,6 +194,22 @@ func (r *Run) lenGuard(a, b string, rec *Rec) bool {
 		if (lenIs(bi.X, a) && lenIs(bi.Y, b)) || (lenIs(bi.X, b) && lenIs(bi.Y, a)) {
 			return true
 		}
+		// the guard may have been established inside another loop over the same collections: it then holds for
+		// every element provided that loop is itself a full-range loop (paths are compared up to induction symbols)
+		for _, pair := range [][2]*Val{{bi.X, bi.Y}, {bi.Y, bi.X}} {
+			if len(pair[0].LenOf) != 1 || len(pair[1].LenOf) != 1 {
+				continue
+			}
+			ga, gb := pair[0].LenOf[0], pair[1].LenOf[0]
+			if genIv(ga) != genIv(a) || genIv(gb) != genIv(b) {
+				continue
+			}
+			oka, _ := r.covered(g, ga)
+			okb, _ := r.covered(g, gb)
+			if (oka || !strings.Contains(ga, "[iv")) && (okb || !strings.Contains(gb, "[iv")) {
+				return true
+			}
+		}
 	}
 	return false
 }
